@@ -429,6 +429,11 @@ def differential(prop_id, cases, monitor=None, finding_class=None, nontrivial=No
         lines.append(line)
         labels.append(lab)
     impl = run_impl(lines, env=impl_env)
+    # cases a harness process did not run because three earlier cases of its share never answered
+    skipped = [i for i, a in enumerate(impl) if a == "SKIPPED"]
+    if skipped:
+        keep = [i for i in range(len(lines)) if impl[i] != "SKIPPED"]
+        lines, labels, impl = [lines[i] for i in keep], [labels[i] for i in keep], [impl[i] for i in keep]
     model = run_model(lines)
     for l, a, b in zip(lines, impl, model):
         # EXHAUSTED (the implementation asked for more clock readings / replies than the case
@@ -447,11 +452,16 @@ def differential(prop_id, cases, monitor=None, finding_class=None, nontrivial=No
             mon[i] = py_monitor(lines[i], impl[i])
         failing = [i for i in range(len(lines)) if not mon[i].startswith("ok")]
     elif monitor is not None:
-        mlines = [monitor(lines[i], impl[i]) for i in range(len(lines))]
+        dead = {i for i in range(len(lines)) if impl[i] == "HANG" or impl[i].startswith("CRASH(")}
+        live = [i for i in range(len(lines)) if i not in dead]
+        mlines = [monitor(lines[i], impl[i]) for i in live]
         mres = run_model(mlines)
-        for i, r in enumerate(mres):
+        for i in dead:
+            mon[i] = "fail " + impl[i]
+        for k, r in enumerate(mres):
+            i = live[k]
             if r == "BADCASE" or r.startswith("NO-OUTPUT"):
-                raise RuntimeError("monitor error on %r -> %r" % (mlines[i], r))
+                raise RuntimeError("monitor error on %r -> %r" % (mlines[k], r))
             mon[i] = r
         failing = [i for i in range(len(lines)) if not mon[i].startswith("ok")]
     else:
@@ -500,15 +510,17 @@ def differential(prop_id, cases, monitor=None, finding_class=None, nontrivial=No
         if reported >= max_reports:
             continue
         reported += 1
-        small = shrink(lines[i], fails_batch) if shrinkable else lines[i]
-        im = run_impl([small], env=impl_env)[0]
+        # (a case that hangs or kills the process is reported as it is: shrinking would pay the time limit per candidate)
+        dead_obs = impl[i] == "HANG" or impl[i].startswith("CRASH(")
+        small = shrink(lines[i], fails_batch) if (shrinkable and not dead_obs) else lines[i]
+        im = impl[i] if dead_obs else run_impl([small], env=impl_env)[0]
         mo = run_model([small])[0]
         payload = {"property": prop_id, "case": small, "original_case": lines[i],
                    "impl_observation": im, "model_observation": mo, "label": labels[i]}
         if py_monitor is not None:
             payload["monitor"] = py_monitor(small, im)
         elif monitor is not None:
-            payload["monitor"] = run_model([monitor(small, im)])[0]
+            payload["monitor"] = ("fail " + im) if dead_obs else run_model([monitor(small, im)])[0]
         path = write_replay(prop_id, payload)
         print("VIOLATION property=%s replay=%s" % (prop_id, os.path.relpath(path, VERIF)))
     # disagreements on which the property still holds: correspondence broken
@@ -552,6 +564,7 @@ def differential(prop_id, cases, monitor=None, finding_class=None, nontrivial=No
         "disagreements_checked": len(disagree),
         "generator_distribution": dict(Counter(labels)),
         "known_finding_hits": dict(known_hits),
+        "skipped_after_hangs": len(skipped),
     }
     if xcheck is not None:
         stats["extraction_crosscheck_vm_compute"] = xcheck
